@@ -107,7 +107,10 @@ def judge_c12(c, d, rep, tab, case, stats):
     s, e = G["start"], G["end"]
     exits, entries = m.adjacency(d)
     lk = {(l["src"], l["dst"]): j for j, l in enumerate(L)}
-    ok_lat = rep["clauses"]["ok"] == 1
+    lat_ok = rep["clauses"]["ok"] == 1
+    ok_lat = lat_ok and not rep.get("skipped")        # the model was evaluated on this lattice
+    if lat_ok and rep.get("skipped"):
+        stats["model:not-evaluated-on-very-large-lattice"] = stats.get("model:not-evaluated-on-very-large-lattice", 0) + 1
 
     def inc(k, by=1):
         stats[k] = stats.get(k, 0) + by
@@ -127,7 +130,7 @@ def judge_c12(c, d, rep, tab, case, stats):
             mism.append(f"traverseEdges: model {rep['traverse'][:12]}… C {T[:12]}…")
     # ---- heuristic
     rem = best_rem(d)
-    if "RS" in d and ok_lat:
+    if "RS" in d and lat_ok:
         for i in range(len(N)):
             r = rem(i)
             if r is not None and d["RS"][i] <= 0 and d["RS"][i] != r:
@@ -178,7 +181,7 @@ def judge_c12(c, d, rep, tab, case, stats):
         seeds = [rem(i) for i, n in enumerate(N) if n["sf"] == 0 and rem(i) is not None]
         if seeds and d["B"][0]["score"] != max(seeds):
             viol.append((f"first N-best score {d['B'][0]['score']} is not the best score {max(seeds)} from the frame-0 nodes", True))
-    elif ok_lat and "BN" in d:
+    elif lat_ok and "BN" in d:
         viol.append(("decoder_nbest returned no entry for a well-formed lattice", True))
     if ok_lat and rep.get("nbest") is not None and "BN" in d:
         mb = [(p["score"], p["nodes"]) for p in rep["nbest"]]
